@@ -20,6 +20,14 @@ CHECKS = {
          "Whole generated P-Code programs (several functions/blocks, same generator as C11) are lifted and run through normalize_basic and normalize_optimize; after each stage every Def/Jmp is size-checked by the harness' own typing rules (same-size operands, Piece/Subpiece/extension consistency, assignment size = variable size, load/store address = pointer size, 1-byte conditions); a failure names the stage/pass.",
          "Trusted: the typing rules in checks/c12.rs (from the IR documentation); generated P-Code is well-typed by construction.",
          "DESIGN.md §3 C12"),
+ "C07": ("model-based differential testing: random graphs x monotone transfer tables x priority permutations (all n! for <= 6 nodes) x step bounds, naive Kleene iteration as reference (proptest tapes, shrinking)",
+         "Random multigraphs (1..12 nodes) with a u8 bitset lattice and monotone edge transfers (gen/kill, conditional gen, blocking edges) implemented as a counting fixpoint::Context; every priority permutation for graphs up to 6 nodes, random permutations beyond, compute() and compute_with_max_steps(k); node_values must equal the Kleene least solution, no edge evaluated more than k times, stabilized => closed and least, not stabilized => non-empty worklist and a further compute() reaches the least solution; bottom-up/top-down worklists on generated CFGs must be permutations giving the same solution.",
+         "Trusted: the Kleene reference and the monotonicity of the generated transfer functions (by construction). Details: notes/C07.md.",
+         "DESIGN.md §3 C07"),
+ "C24": ("generated call graphs, all ordered (source,target) pairs; reference = reflexive Warshall transitive closure (proptest tapes, shrinking)",
+         "Programs of 1..9 functions with self/ring/back/parallel calls plus extern and indirect calls; for every ordered pair find_call_sequences_to_target must return exactly the call TIDs u->v with R*(source,u) and R*(v,target); the call graph must have one node per function and the exact multiset of direct-call edges. All pairs per program are enumerated.",
+         "Trusted: the closure characterisation in checks/c24.rs (from the doc comment of the function). Details: notes/C24.md.",
+         "DESIGN.md §3 C24"),
 }
 
 NOT_APPLICABLE = {}
